@@ -17,7 +17,7 @@ Driver for C18.  One query per line:
                           EST          - | [] | soln~pname~tag(,…)
             ssc station   keyhex:tag:PV        PV  [] | soln~start~stop~tag(,…)
             dates are integer microseconds after datetime.min, `-` is None
-  stations  T<hex>  (comma separated text)  |  L<hex>,<hex>…  |  L[]
+  stations  T<hex>  (comma separated text)  |  L<hex>,<hex>…  |  L[]  (container)  |  O<hex>,<hex>… | O[]  (one-shot iterable)
   date      - (no date) | last | integer
 -/
 namespace Driver.C18
@@ -87,6 +87,15 @@ def parseStations? (s : String) : Option Stations :=
   else if s.startsWith "L" then (((s.drop 1).toString.splitOn ",").mapM strOfHex?).map Stations.list
   else none
 
+/-- the argument as given: `T` text, `L` a container that can be iterated again, `O` a one-shot iterable -/
+def parseStationsArg? (s : String) : Option StationsArg :=
+  if s.startsWith "T" then (strOfHex? (s.drop 1).toString).map StationsArg.text
+  else if s = "L[]" then some (.iter (.reiterable []))
+  else if s = "O[]" then some (.iter (.oneShot []))
+  else if s.startsWith "L" then (((s.drop 1).toString.splitOn ",").mapM strOfHex?).map (fun l => .iter (.reiterable l))
+  else if s.startsWith "O" then (((s.drop 1).toString.splitOn ",").mapM strOfHex?).map (fun l => .iter (.oneShot l))
+  else none
+
 def parseDate? (s : String) : Option (Option DateQ) :=
   if s = "-" then some none
   else if s = "last" then some (some .last)
@@ -130,22 +139,22 @@ def handle : List String → Option String
     pure (showList hexOfStr (normStations st))
   | ["c18", "q", kind, src, md, op, st, date] => do
     let src ← parseSource? kind src
-    let st ← parseStations? st
+    let st ← parseStationsArg? st
     let date ← parseDate? date
     match md, op with
     | "all", "get" =>
-      match siteInfoGet src st date with
+      match siteInfoGetArg src st date with
       | .error e => pure (showErr e)
       | .ok d => pure (showDict showMods d)
     | "all", "hist" =>
-      match siteInfoGetHistory src st with
+      match siteInfoGetHistoryArg src st with
       | .error e => pure (showErr e)
       | .ok d => pure (showDict showMods d)
     | _, _ =>
       let m ← parseModule? md
       let r ← match op with
-        | "get" => some (moduleGet m src st date)
-        | "hist" => some (moduleGetHistory m src st)
+        | "get" => some (moduleGetArg m src st date)
+        | "hist" => some (moduleGetHistoryArg m src st)
         | _ => none
       match r with
       | .error e => pure (showErr e)
